@@ -545,7 +545,7 @@ class LinalgCheck(Check):
     RATIO_KEYS = ("r1", "r2", "r_lu", "r_rec", "r", "r_orth", "r_row", "r_det")
 
     def post_events(self, ctx, traces):
-        skipped, exact, worst, n_ev = 0, 0, 0, 0
+        skipped, exact, worst, n_ev, above = 0, 0, 0, 0, 0
         for cfgname, evs in traces.items():
             for ev in evs:
                 o = ev.get("out")
@@ -562,8 +562,15 @@ class LinalgCheck(Check):
                             v = o[k] if isinstance(o[k], list) else [o[k]]
                             if k == "r_row":
                                 v = [min(o["r_row"], o["r_col"])]
-                            worst = max(worst, max(v) if v else 0)
-        self.stats = {"evaluations": n_ev, "skipped_out_of_domain": skipped, "exactly_reverified_by_TLC": exact, "largest_ratio_milli_in_domain": worst}
+                            if k == "r_det" and o.get("hasdet") != 1:
+                                continue
+                            for x in v:
+                                if x <= 16000:
+                                    worst = max(worst, x)
+                                else:
+                                    above += 1
+        self.stats = {"evaluations": n_ev, "skipped_out_of_domain": skipped, "exactly_reverified_by_TLC": exact,
+                      "largest_accepted_ratio_milli": worst, "ratios_above_bound": above}
         return traces
 
     def event_weight(self, ev):
